@@ -352,6 +352,11 @@ func (t *stdioClientTransport) readLoop() {
 			t.logger.Warnf("Unexpected message type: %s", msgType)
 		}
 	}
+
+	// The server's stdout has ended: no response can arrive any more, so pending requests must not wait for one.
+	if !t.closed.Load() {
+		t.cancel()
+	}
 }
 
 // handleResponse handles JSON-RPC responses.
